@@ -28,6 +28,7 @@ structure Sess where
   dflt  : Bool := false
   um    : User := {}
   us    : User := {}
+  sparse : Bool := false  -- obs=sparse: used/free are printed by `observe` only
 
 def freshByte : Nat := 238
 
@@ -49,9 +50,11 @@ def phys (dflt : Bool) (r : Option DynamicPool) : String :=
     head ++ String.join ((List.range pgs.length).zipWith (fun i p => s!" pg{i}={fmtList p.bytes}") pgs)
 def inv (r : Option DynamicPool) : Bool := match r with | none => true | some r => decide r.Inv
 
-def lineS (hd : String) (s : Sess) : String := s!"S {hd}{obsS s.spec}"
-def lineM (hd : String) (s : Sess) : String :=
-  s!"M {hd}{obsM s.model} | {phys s.dflt s.model} | {fmtMem s.mem} | {fmtFlags (inv s.model) s.mem}"
+def lineS' (full : Bool) (hd : String) (s : Sess) : String := s!"S {hd}{if full then obsS s.spec else ""}"
+def lineM' (full : Bool) (hd : String) (s : Sess) : String :=
+  s!"M {hd}{if full then obsM s.model else ""} | {phys s.dflt s.model} | {fmtMem s.mem} | {fmtFlags (inv s.model) s.mem}"
+def lineS (hd : String) (s : Sess) : String := lineS' (!s.sparse) hd s
+def lineM (hd : String) (s : Sess) : String := lineM' (!s.sparse) hd s
 
 def freeArg (c : Cmd) (u : User) : Option (Nat × Nat) → Option (Nat × Nat) := fun topPtr =>
   match c.natOpt "idx", c.natOpt "off" with
@@ -99,13 +102,16 @@ def step (s : Sess) (c : Cmd) : Sess × String × String :=
     let (sst, sp) := if size > Spec.pageLimit then (Stat.errInvalidCapacity, none)
                      else if c.fired > 0 then (Stat.errAlloc, none)
                      else (Stat.ok, some (Spec.DPool.init size fixed packed ab (List.replicate size freshByte)))
-    let s' : Sess := { model := r, spec := sp, mem := m, exp, dflt }
+    let s' : Sess := { model := r, spec := sp, mem := m, exp, dflt, sparse := (c.str "obs").getD "full" == "sparse" }
     (s', lineS (fmtStat sst) s', lineM (fmtStat st) s')
   | _ =>
   match s.model, s.spec with
   | some r, some f =>
     let grow := growF s.exp
     match c.op with
+    | "observe" =>
+      let s' : Sess := { s with mem := m }
+      (s', lineS' true "st=-" s', lineM' true "st=-" s')
     | "malloc" =>
       let n := c.arg 0
       let probe := c.nat "probe" 0 != 0
